@@ -846,10 +846,9 @@ static void run_alias(const Case& c) {
         } else if (entry == A_PPUT) {
           // destination inside the data; a destination overlapping the source only partly becomes the source itself
           size_t dst = dst_sel % (S - n + 1);
-          if (dst != src && dst < src + n && src < dst + n) {
-            dst = src;
-            ctx().exclude("alias: pput<T> whose destination overlaps its own argument only partly (pput copies with memcpy; ASan reports memcpy-param-overlap on the unchanged tree): replaced by destination == source");
-          }
+          // a destination overlapping the source only partly is legal too (StringWriter::pput copies with memmove since
+          // the repair of the aliasing defect)
+          if (dst != src && dst < src + n && src < dst + n) ctx().cls("alias:pput-destination-overlaps-its-argument");
           at = dst;
           expect = m;
           expect.replace(dst, n, value);
@@ -1151,8 +1150,9 @@ static Case gen_alias() {
     uint64_t pick = vg::below(100);
     uint64_t entry = pick < 45 ? A_PUT : pick < 60 ? A_WRITE_PTR : pick < 68 ? A_WRITE_SELF : pick < 85 ? A_PPUT : A_BUFFER;
     if (entry == A_PPUT && vg::chance(1, 4)) {
-      // a positional write that GROWS the writer from an argument inside it: real defect of the unchanged tree (reported), kept out
-      ctx().exclude("alias: pput<T> landing past the end with an argument referring into the writer (pput resizes before it copies: reported defect of the unchanged tree): replaced by a destination inside the data");
+      // a positional write that GROWS the writer from an argument inside it (pput used to resize before it copied:
+      // use-after-free, repaired in /repo)
+      entry = A_PPUT_GROW;
     }
     if (entry == A_WRITE_SELF && S > 50000) entry = A_PUT;
     uint64_t tsel = vg::below(alias_types_fitting(S));
@@ -1168,6 +1168,7 @@ static Case gen_alias() {
     }
     c.N(entry).N(tsel).N(src_sel).N(dst_sel);
     if (entry == A_PUT || entry == A_WRITE_PTR || entry == A_WRITE_SELF) S += n;
+    if (entry == A_PPUT_GROW) S = (S - n + 1 + dst_sel % (n + 16)) + n; // the writer grows to the end of the positional write
   }
   return c;
 }
